@@ -85,9 +85,14 @@ type ExecResult struct {
 
 func (r ExecResult) OK() bool { return r.Err == nil }
 
+// ExecNoValidate is Exec without the stateless ValidateBasic step (how contracts / genesis reach a handler).
+func (c *Chain) ExecNoValidate(msg sdk.Msg) ExecResult { return c.exec(msg, false) }
+
 // Exec runs one message with transaction semantics on c.Ctx.
-func (c *Chain) Exec(msg sdk.Msg) (out ExecResult) {
-	if v, ok := msg.(validator); ok {
+func (c *Chain) Exec(msg sdk.Msg) ExecResult { return c.exec(msg, true) }
+
+func (c *Chain) exec(msg sdk.Msg, validate bool) (out ExecResult) {
+	if v, ok := msg.(validator); ok && validate {
 		if err := v.ValidateBasic(); err != nil {
 			return ExecResult{Err: fmt.Errorf("validate basic: %w", err)}
 		}
@@ -227,4 +232,24 @@ func (r ExecResult) Unpack(out interface{ Unmarshal([]byte) error }) error {
 		return fmt.Errorf("no message response")
 	}
 	return out.Unmarshal(r.Res.MsgResponses[0].Value)
+}
+
+// EnableSuperfluidDurations makes the staking unbonding time a lockable duration (mainnet genesis does),
+// which superfluid intermediary-account gauges require.
+func (c *Chain) EnableSuperfluidDurations() time.Duration {
+	sp, err := c.App.StakingKeeper.GetParams(c.Ctx)
+	if err != nil {
+		panic(err)
+	}
+	ds := c.App.IncentivesKeeper.GetLockableDurations(c.Ctx)
+	has := false
+	for _, d := range ds {
+		if d == sp.UnbondingTime {
+			has = true
+		}
+	}
+	if !has {
+		c.App.IncentivesKeeper.SetLockableDurations(c.Ctx, append(ds, sp.UnbondingTime))
+	}
+	return sp.UnbondingTime
 }
